@@ -7,8 +7,8 @@ import os, sys, json, random, subprocess, itertools
 import vlib
 sys.path.insert(0, os.path.join(vlib.VERIF, 'tools', 'translate'))
 
-LEAN_TARGETS = ['CvxVerif.Gen.C19Safe', 'CvxVerif.Gen.C19SafeL', 'CvxVerif.Props.C19']
-MODEL_FILES = ['CvxVerif.Model.CWrap', 'CvxVerif.Gen.BlasWrap', 'CvxVerif.Gen.LapackWrap']
+LEAN_TARGETS = ['CvxVerif.Gen.C19Safe', 'CvxVerif.Gen.C19SafeL', 'CvxVerif.Gen.C19SafeB', 'CvxVerif.Props.C19']
+MODEL_FILES = ['CvxVerif.Model.CWrap', 'CvxVerif.Gen.BlasWrap', 'CvxVerif.Gen.LapackWrap', 'CvxVerif.Gen.BaseWrap']
 LEVEL = 'proof'
 TRUSTED = ['translator tools/translate/cwrap2lean.py (C tokenizer/parser for the argument-checking prefix of blas.c and lapack.c - the statements '
            'between the argument parse and the work-space allocation / type switch; CPS emission; proof scripts) -- validated by running every '
@@ -33,6 +33,10 @@ def translate(ctx):
         ctx.table = t
     except Exception as e:
         return ['cwrap2lean: %s: %s' % (type(e).__name__, e)]
+    try:
+        ctx.table_base = cwrap2lean.gen_base_safety()
+    except Exception as e:
+        return ['cwrap2lean (base.c): %s: %s' % (type(e).__name__, e)]
     from corr import c19_lapack
     return c19_lapack.translate(ctx)
 
